@@ -543,8 +543,13 @@ class TheEvaluateHelper(TopLevel):
     def havoc_for_loop(self, eng, st, body, **kw):
         h = EvalContract.havoc_for_loop(self, eng, st, body, **kw)
         itd = kw.get('iterated')
-        was = st.locals.get('result')
+        # the first-row accumulator: the one local that is None when the loop is reached and that the loop body assigns
+        # (called `result` in the source; found structurally, not by name)
+        cands = [nm for nm in eng.written_names(body) if isinstance(st.locals.get(nm), C) and st.locals[nm].v is None]
+        acc = cands[0] if len(cands) == 1 else None
+        was = st.locals.get(acc) if acc else None
         if isinstance(was, C) and was.v is None and itd is not None:
+            h.ghost['acc_name'] = acc
             # `result` is None until the first row, then that row (merged with sigma)
             row = eng.new_dict(h, Z.ZMap.fresh('firstrow'))
             c = kw.get('callee')
@@ -554,7 +559,7 @@ class TheEvaluateHelper(TopLevel):
                 sig = h.ghost['sigma_now']
                 EvalContract.assume_row(self, h, c, sig, z3.BoolVal(False), R, None)
                 h.assume(h.dicts[row.ref].extends(R.merge(sig)), R.merge(sig).extends(h.dicts[row.ref]))
-            h.locals['result'] = Obj('optrow', {'isnone': z3.Not(itd), 'row': row})
+            h.locals[acc] = Obj('optrow', {'isnone': z3.Not(itd), 'row': row})
             h.ghost['first_row'] = row.ref
             h.ghost['result_at_loop_head'] = z3.Not(itd)
         return h
@@ -598,7 +603,7 @@ class TheEvaluateHelper(TopLevel):
         itd = None
         for p in st.pc:
             pass
-        res = st.locals.get('result')
+        res = st.locals.get(st.ghost.get('acc_name', 'result'))
         f = st.ghost['ywf_arg']
         n = st.ghost['self']
         bound = st.ghost['sigma0'].contains(Z.nid(n))
